@@ -58,9 +58,15 @@ PROP_CONFIGS = {
 
 ASSUMPTIONS = {
     "_all": [
-        "the scripted children honour the Future/Stream contracts and the harness executor honours the caller side (no poll after Ready/None)",
+        "the scripted children honour the Future/Stream contracts and the harness executor honours the caller side (no poll after Ready/None, in particular never a poll of the combinator after its own final result)",
         "wake-ups from other threads are generated as wakes that land between polls or inside a child's poll (all readiness state is behind one mutex that is released only around child polls); truly simultaneous execution on two cores is not explored",
-        "generated search: bounded sizes (tuples <= 12, Vec <= 200 in the thorough tier, scripts <= 10 steps, schedules <= 40 actions, nesting depth 1)",
+    ],
+    "_comb": [
+        "generated search: bounded sizes (tuples <= 12, Vec <= 12 and now and then / in the thorough tier often the boundary lengths 22..24, 63..66, 100, 128, 129, 200; scripts <= 10 steps, schedules <= 40 actions, nesting depth 1, group histories <= 40 / 120 operations)",
+    ],
+    "_co": [
+        "generated search: source length <= 12, adapter stacks of depth <= 3, take(n) with n <= len + 2 or huge, closure-future scripts <= 4 steps, schedules <= 30 actions",
+        "an error counts as observed by the consumer at the moment the failing future answers (futures only answer when the consumer polls them)",
     ],
 }
 
@@ -171,7 +177,7 @@ def write_evidence(prop, tier, seed, frags, wall, violations, extra=None, level=
         "seed": seed,
         "level": level,
         "coverage": cov,
-        "assumptions": ASSUMPTIONS["_all"] + ASSUMPTIONS.get(prop, []),
+        "assumptions": ASSUMPTIONS["_all"] + ASSUMPTIONS["_co" if prop in ("C13", "C14", "C15") else "_comb"] + (ASSUMPTIONS["_co"] if prop in ("C02", "C03") else []),
         "wall_s": round(wall, 3),
         "violations": violations,
     }
